@@ -252,7 +252,7 @@ def handover_cases(tier, inst):
         for b in fl:
             if a != b:
                 for pi in range(len(HANDOVER_POINTS)):
-                    for form in ("name", "state-object"):
+                    for form in ("name", "state-object", "one-object-by-name", "one-object-name", "one-object-state-object"):
                         yield {"first": a, "second": b, "point": pi, "form": form}
 
 
@@ -272,9 +272,24 @@ def handover_run(case, res: Result):
         c.solve(Te, Tc, refrigerant=None, **kw)
         return c
 
+    def one_object(first, second):
+        # ONE cycle object solved for the first fluid and then for the second, at the same temperatures (wave 5: anything the object
+        # remembers about the first fluid - pressures, states - must not survive the change of fluid)
+        c = SimpleHeatPumpCycle()
+        for fluid in (first, second):
+            if case["form"] == "one-object-by-name":
+                c.solve(Te, Tc, refrigerant=fluid, **kw)
+            else:
+                c.state = fluid if case["form"] == "one-object-name" else CP.AbstractState("HEOS", fluid)
+                c.solve(Te, Tc, refrigerant=None, **kw)
+        return c
+
     try:
-        handed(case["first"])
-        got = handed(case["second"])
+        if case["form"].startswith("one-object"):
+            got = one_object(case["first"], case["second"])
+        else:
+            handed(case["first"])
+            got = handed(case["second"])
         ref = SimpleHeatPumpCycle()
         ref.solve(Te, Tc, refrigerant=case["second"], **kw)
     except Exception as exc:
@@ -301,10 +316,10 @@ SUBCHECKS = {
     ),
     "handover": SubCheck(
         name="handover",
-        describe="two cycles in one process whose fluids are handed over through the `state` property (name or CoolProp state object) and solved with refrigerant=None",
+        describe="two fluids in one process: two cycles whose fluids are handed over through the `state` property (name or CoolProp state object, refrigerant=None), and ONE cycle object solved for the first fluid and then for the second",
         rule="case = (first fluid, second fluid, operating point, form of the hand-over); non-trivial = both solve; outcomes = distinct pressure sets",
         cases=handover_cases, run=handover_run,
-        bound=lambda t: "all ordered pairs of 6 pure refrigerants x 3 operating points x 2 forms",
+        bound=lambda t: "all ordered pairs of 6 pure refrigerants x 3 operating points x 5 forms (two objects: name, state object; ONE object solved for both fluids: refrigerant=, state name, state object)",
     ),
     "cycles": SubCheck(
         name="cycles",
